@@ -107,6 +107,61 @@ CHECKS = {
         "mutations (quick ~700, thorough ~10^4); macros never invoked there are not covered. z3 steps are not re-run. veriT macros: see C18.",
         "TLA+ spec of trusted vs expanded macro checking + TLC; trace validation of harvested real macro invocations (eval vs checked expansion)",
         "6/C04"),
+ "C02": ("model_checking",
+        "TLC explores the space of proof objects of spec/C02_Checker.tla (construction actions; identifiers position+offset, citations "
+        "existing/forward/self/negative/dangling/into-closed-block, stated sequent absent/exact/weaker/stronger/other, placeholders, gap "
+        "macro, empty lines, blocks) checking that the resolution-agnostic reference RefCheck is sound and counts gaps exactly; the checker "
+        "AS CODED (C02_CheckerImpl: can_depend_on on identifiers, find_item on positions with Python indexing, in-place th, compute_only, "
+        "checked_extend; variant constants derived from the code by behavioural probes) is model-checked against RefCheck on the same "
+        "space; every object plus seeded larger damaged derivations is built as real Proof objects, run through theory.check_proof / "
+        "checked_extend, and TLC judges each event (C02_CheckerTrace: AcceptedJustified, FinalJustified, NoGapsHonoured, GapsReported, "
+        "ExtensionProved).",
+        "Trusted: TLC/SANY, CommunityModules Json, the projection in harness/drivers/c02.py, CPython. Small sequent language (implications "
+        "over A, B, ?A; 7 rules + 2 test macros, check_level 0); rule `variable`, non-empty instantiations and shared items not examined; "
+        "exhaustive within slice bounds (<=3 items / 1 block / anomaly budget), sampled beyond.",
+        "TLA+ reference checker + as-coded algorithm model, TLC model checking, vector replay and trace validation against kernel/theory.py",
+        "6/C02"),
+ "C11": ("model_checking",
+        "TLC offers every candidate definition (rhs depth<=2; self-referential, polymorphic/schematic right-hand sides, repeated / "
+        "non-variable / constant arguments, new / overloaded / already declared names) to a theory machine (spec/C11_Items.tla) with "
+        "invariants SyntacticOK => Conservative (finite standard models), AddedWellTyped, OnlyOKAdded; all candidates, seeded random larger "
+        "ones, generated datatypes / recursive functions / inductive predicates and the items of the library files go through "
+        "items.parse_item, get_extension, export_json and get_display/parse_edit; TLC judges the PARSED definitions on the literal "
+        "conditions of the property (overlap decided by unification), every generated extension for well-typedness over the extended "
+        "signature, and both round trips (spec/C11_ItemsTrace.tla).",
+        "Trusted: TLC/SANY, HolSem finite models for the semantic companion clause (an accepted, SyntacticOK but non-conservative definition "
+        "would be a machinery error, never a violation), structural projection of items. Semantic validity of generated induction/cases "
+        "theorems is not examined (the property asks for well-typedness). Library files: quick 7 seeded, thorough all 43.",
+        "TLA+ theory-extension machine + finite-model conservativity + TLC; vector replay and trace validation against server/items.py",
+        "6/C11"),
+ "C16": ("model_checking",
+        "TLC model-checks spec/C16_LinArith.tla (+C16_LinCore.tla): every multiset of <=2 (and a class of 3) two-variable factoids "
+        "0<=a*x1+b*x2+c is a state; a reference elimination (Fourier-Motzkin, real shadow + GCD tightening, dark shadow) runs over it in "
+        "every variable order; invariants RealSound, ContrSound, DarkSound, ExactComplete, FMExact (rational-grid completeness) and "
+        "BoxStable are judged by brute force over integer boxes / the grid k/d. Every system of the class is replayed into "
+        "omega.solve_matrix (both row orders) and Simplex (two input shapes), samples into OmegaHOL, SimplexMacro, branch_and_bound, "
+        "IntegerSimplexMacro and simplex_strict, plus seeded random systems <=5 vars/8 rows/coeff -5..5; produced proofs go through "
+        "theory.check_proof. TLC (C16_LinArithTrace) judges every event: SAT => the returned (rational) assignment satisfies every row "
+        "and is integral for integer procedures; UNSAT => no point of the box/grid satisfies the system; proof => accepted, concludes "
+        "false, hypotheses among the given constraints and themselves unsatisfiable on the box.",
+        "Trusted: TLC/SANY, exact integer arithmetic of C16_LinCore, CPython, kernel term accessors used to project hypotheses to linear "
+        "forms. UNSAT verdicts are refuted only by an explicit point of a box/grid (never a false alarm; a wrong UNSAT whose solutions all "
+        "lie outside the boxes is missed); no-conclusion/exception/time-out = divergence; strict-simplex SAT assignments and witnesses "
+        ">10^6 are not examined.",
+        "TLA+ reference elimination as a transition system + TLC; TLC-generated vector replay and trace validation of omega / simplex",
+        "6/C16"),
+ "C20": ("model_checking",
+        "TLC explores annotated while-programs (nesting<=3, thorough 4; integer and natural pools with nested subtraction, products of "
+        "sums, negated conjunctions, nested implications) as a small-step machine (spec/C20_Hoare.tla) and checks the reference VC "
+        "generator sound against execution (Sound / ExecAgrees / AllGuarded); every triple is replayed through imperative/com.py "
+        "(compute_wp, get_lines, get_vcs, parser2 re-parse, HOL form, compute_wp twice) and sampled natural-number triples and "
+        "(program, store) pairs through imp.vcg_norm / eval_Sem + check_proof; TLC judges every event (C20_HoareTrace): VcSound (with the "
+        "CODE's conditions), PrintParse, ParseFail, HolMeaning, EvalSemChecked, EvalSemFinal, VcgChecked, VcgSound.",
+        "Trusted: TLC/SANY, the structural codec for imperative/expr.py objects, CPython. Exact on the box: every precondition / invariant "
+        "carries the box conjunct and each code condition is checked guarded, so 'all VCs hold' is decided, not sampled. Not examined: "
+        "operators outside parser2's grammar, truncated natural subtraction, runs needing > 10 loop iterations or values beyond +-30.",
+        "TLA+ operational semantics + reference VC generator, TLC model checking; vector replay and trace validation of imperative/*",
+        "6/C20"),
 }
 
 NOT_YET = {}
